@@ -288,7 +288,22 @@ static void composite_case (vf_rng *r)
     int want_direct = vf_chance (r, 1, 4);
     pixman_format_code_t mf = pick_alpha (r);
     pixman_op_t op = vf_chance (r, 1, 2) ? PIXMAN_OP_OVER : (pixman_op_t)(vf_next (r) % 14);
-    if (want_direct) { op = PIXMAN_OP_ADD; q1.dst.fmt = mf; q1.dst.n_clip = 0; memset (&q1.src, 0, sizeof q1.src); q1.src.kind = RQ_SOLID; q1.src.solid.alpha = 0xffff; q1.src.solid.red = (uint16_t)vf_next (r); }
+    if (want_direct) {
+        /* the direct route: ADD of an opaque source onto a destination of the mask's format.  It may only be taken without a destination clip and
+         * without an effective source clip, so both kinds of clip are generated around it (clips that contain the shapes, clips that cut them) */
+        op = PIXMAN_OP_ADD; q1.dst.fmt = mf;
+        int dclip = (int)(vf_next (r) % 4);
+        if (dclip == 0) { q1.dst.n_clip = 1; q1.dst.clip[0].x1 = 0; q1.dst.clip[0].y1 = 0; q1.dst.clip[0].x2 = q1.dst.w; q1.dst.clip[0].y2 = q1.dst.h; if (vf_chance (r, 1, 2)) { q1.dst.clip[0].x1 = (int)vf_range (r, 0, q1.dst.w / 2); q1.dst.clip[0].y2 = (int)vf_range (r, q1.dst.h / 2 + 1, q1.dst.h); } }
+        else if (dclip >= 2) q1.dst.n_clip = 0;
+        rq_image keep = q1.src;
+        memset (&q1.src, 0, sizeof q1.src);
+        if (vf_chance (r, 1, 3) && keep.kind == RQ_BITS) { q1.src = keep; q1.src.fmt = vf_chance (r, 1, 2) ? PIXMAN_x8r8g8b8 : PIXMAN_r5g6b5; q1.src.repeat = PIXMAN_REPEAT_NORMAL; q1.src.alpha_map = 0; }
+        else { q1.src.kind = RQ_SOLID; q1.src.solid.alpha = 0xffff; q1.src.solid.red = (uint16_t)vf_next (r); pixman_transform_init_identity (&q1.src.tr); }
+        int sclip = (int)(vf_next (r) % 3);
+        if (sclip == 0) q1.src.n_clip = 0;
+        else { q1.src.n_clip = 1 + (int)(vf_next (r) % 2); for (int i = 0; i < q1.src.n_clip; i++) { q1.src.clip[i].x1 = (int)vf_range (r, -2, q1.dst.w / 2); q1.src.clip[i].y1 = i * 3 + (int)vf_range (r, -1, 1); q1.src.clip[i].x2 = q1.src.clip[i].x1 + (int)vf_range (r, 1, q1.dst.w); q1.src.clip[i].y2 = q1.src.clip[i].y1 + (int)vf_range (r, 1, 3); }
+               q1.src.clip_sources = !vf_chance (r, 1, 4); q1.src.has_client_clip_only = vf_chance (r, 1, 3); }
+    }
     q1.dst.neg = 0;
     q2 = q1;
     vf_rng r1 = *r, r2 = *r;
@@ -300,6 +315,20 @@ static void composite_case (vf_rng *r)
     for (int i = 0; i < n; i++) { gen_trap (r, &tr[i], q1.dst.w, q1.dst.h, 0);
         tri[i].p1.x = fxr (r, -6, q1.dst.w + 6); tri[i].p1.y = fxr (r, -4, q1.dst.h + 4); tri[i].p2.x = fxr (r, -6, q1.dst.w + 6); tri[i].p2.y = fxr (r, -4, q1.dst.h + 4); tri[i].p3.x = fxr (r, -6, q1.dst.w + 6); tri[i].p3.y = fxr (r, -4, q1.dst.h + 4); }
     int xs = (int)vf_range (r, -4, 6), ys = (int)vf_range (r, -3, 3), xd = (int)vf_range (r, -5, 5), yd = (int)vf_range (r, -3, 3);
+    if (want_direct && q1.dst.n_clip && vf_chance (r, 1, 2)) {
+        /* a destination clip that just contains the shapes where they are given (not where the offset puts them), set on both images */
+        int64_t x1 = INT32_MAX, y1 = INT32_MAX, x2 = INT32_MIN, y2 = INT32_MIN;
+        for (int i = 0; i < n; i++) {
+            int64_t xv[4], yv[4]; int nv;
+            if (!use_tri) { xv[0] = tr[i].left.p1.x; xv[1] = tr[i].left.p2.x; xv[2] = tr[i].right.p1.x; xv[3] = tr[i].right.p2.x; yv[0] = tr[i].top; yv[1] = tr[i].bottom; yv[2] = tr[i].top; yv[3] = tr[i].bottom; nv = 4; }
+            else { xv[0] = tri[i].p1.x; xv[1] = tri[i].p2.x; xv[2] = tri[i].p3.x; yv[0] = tri[i].p1.y; yv[1] = tri[i].p2.y; yv[2] = tri[i].p3.y; nv = 3; }
+            for (int k = 0; k < nv; k++) { if (xv[k] < x1) x1 = xv[k]; if (xv[k] > x2) x2 = xv[k]; if (yv[k] < y1) y1 = yv[k]; if (yv[k] > y2) y2 = yv[k]; }
+        }
+        pixman_region32_t reg; pixman_region32_init_rect (&reg, (int)(x1 >> 16) - 1, (int)(y1 >> 16) - 1, (unsigned)(((x2 + 0xffff) >> 16) - (x1 >> 16) + 2), (unsigned)(((y2 + 0xffff) >> 16) - (y1 >> 16) + 2));
+        pixman_image_set_clip_region32 (q1.dst.img, &reg); pixman_image_set_clip_region32 (q2.dst.img, &reg); pixman_region32_fini (&reg);
+        if (xd == 0 && yd == 0) xd = 2;
+        vf_count ("direct_route_candidates_with_containing_clip", 1);
+    }
     /* operators for which the library composites 'across the entire destination' (a zero source changes the destination, plus SATURATE and
      * everything beyond the 13 operators its table lists): with a non-zero destination offset it covers [x_dst, x_dst+width) only - a known
      * finding that is keyed separately below; most of these cases keep a zero offset */
@@ -323,7 +352,8 @@ static void composite_case (vf_rng *r)
             pixman_image_unref (mask);
             vf_count ("evaluations", (long)q1.dst.w * q1.dst.h); vf_count ("composite_cases", 1);
             vf_label ("composite_op_mask", "%s/%s/%s", use_tri ? "tri" : "trap", ro_op_name (op), rp_name (mf));
-            vf_cell ("cells", vf_mix (vf_mix (200 + use_tri, op * 16 + depth_of (mf)), vf_mix ((uint64_t)q1.dst.fmt, want_direct * 2 + (q1.dst.n_clip > 0))));
+            vf_cell ("cells", vf_mix (vf_mix (200 + use_tri, op * 16 + depth_of (mf)), vf_mix ((uint64_t)q1.dst.fmt, want_direct * 2 + (q1.dst.n_clip > 0) + 4 * (q1.src.n_clip > 0) + 8 * q1.src.clip_sources + 16 * q1.src.has_client_clip_only)));
+            if (want_direct) vf_label ("direct_route_clips", "dst-clip=%d src-clip=%d clip_sources=%d client_clip=%d", q1.dst.n_clip > 0, q1.src.n_clip > 0, q1.src.clip_sources, !q1.src.has_client_clip_only);
             if (rq_digest (&q1) != rq_digest (&q2)) {
                 int fx = -1, fy = -1; images_equal (&q1.dst.buf, &q2.dst.buf, &fx, &fy);
                 char key[128]; snprintf (key, sizeof key, "C12:composite-%s-vs-mask-route:%s%s", use_tri ? "triangles" : "trapezoids", ro_op_name (op), want_direct ? ":direct-add-route" : "");
